@@ -1,6 +1,8 @@
 package polynomial
 
 import (
+	cpoly "github.com/tuneinsight/lattigo/v6/circuits/common/polynomial"
+	"github.com/tuneinsight/lattigo/v6/utils/bignum"
 	"math/big"
 	"math/bits"
 
@@ -359,6 +361,21 @@ func VerifH_C13_PolynomialEvaluation() {
 				vCheckOutput(c, out, ct, maxL, m, per, 3, 7, "vector")
 			}
 		}
+		// a second vector on the SAME evaluator, covering fewer and other slots: nothing of the first mapping survives
+		mapping2 := map[int][]int{0: {3}, 1: {6, 10}}
+		pv2, err := NewPolynomialVector([][]uint64{{7, 1, 2}, {0, 3, 9}}, mapping2)
+		vAssert(err == nil, "second-vector-NewPolynomialVector-no-error")
+		ct2, m2 := vInput(c, maxL, 3, "w")
+		out2, err := eval.Evaluate(ct2, pv2, params.NewScale(7))
+		vAssert(err == nil, "second-vector-Evaluate-no-error")
+		if err == nil {
+			per2 := make([][]uint64, params.MaxSlots())
+			per2[3] = []uint64{7, 1, 2}
+			per2[6], per2[10] = []uint64{0, 3, 9}, []uint64{0, 3, 9}
+			if !vIsAlgebraic() {
+				vCheckOutput(c, out2, ct2, maxL, m2, per2, 3, 7, "second-vector")
+			}
+		}
 	}
 	vCover("C13-reached")
 }
@@ -433,6 +450,16 @@ func VerifH_C13_ScaleInvariantBookkeeping() {
 			}
 			vAssert(out.Scale.Uint64()%t == 7%t, tag+"-output-scale-is-the-target-scale")
 			vAssert(out.Level() == level, tag+"-level-unchanged")
+			// the same evaluation from a pre-computed power basis (here: X^1 only) behaves alike
+			ctb := bgv.NewCiphertext(params, 1, level)
+			ctb.Scale = params.NewScale(3)
+			pb := cpoly.NewPowerBasis(ctb, bignum.Monomial)
+			var outb *rlwe.Ciphertext
+			panicked = vPanics(func() { outb, err = eval.EvaluateFromPowerBasis(pb, NewPolynomial(p), params.NewScale(7)) })
+			vAssert(!panicked && err == nil, tag+"-from-a-power-basis-Evaluate-neither-fails-nor-panics")
+			if !panicked && err == nil {
+				vAssert(outb.Scale.Uint64()%t == 7%t && outb.Level() == level, tag+"-from-a-power-basis-output-scale-and-level")
+			}
 		}
 	}
 	vCover("C13-scale-invariant-reached")
